@@ -2,6 +2,7 @@ package checks
 
 import (
 	"bytes"
+	"context"
 	"fmt"
 	"math/rand/v2"
 	"runtime"
@@ -9,6 +10,7 @@ import (
 	"time"
 
 	"github.com/arloliu/go-secs/v2/hsms"
+	"github.com/arloliu/go-secs/v2/secs2"
 
 	"verif/fw"
 	"verif/peer"
@@ -48,6 +50,9 @@ func c04Stream(env *fw.Env) {
 	}
 	for _, off := range []int{1, 2, 3, 4, 5, 9, 13, 14, 15, 40} { // in-frame stall offsets (1..3 are inside the length field)
 		jobs = append(jobs, job{"stall", off})
+	}
+	for _, off := range []int{2, 4, 9, 40} {
+		jobs = append(jobs, job{"stall+local-writes", off})
 	}
 	for k := 0; k < env.Pick(2, 10); k++ {
 		jobs = append(jobs, job{"slow-steady", k})
@@ -109,7 +114,7 @@ func c04StreamOne(env *fw.Env, i int64, kind string, arg int) {
 	cs := c04StreamCase{Index: i, Kind: kind, Active: i%2 == 0}
 	t8 := 400 * time.Millisecond
 	switch kind {
-	case "idle-gap", "stall":
+	case "idle-gap", "stall", "stall+local-writes":
 		t8 = 100 * time.Millisecond
 	case "slow-steady":
 		t8 = 300 * time.Millisecond
@@ -259,14 +264,25 @@ func c04StreamOne(env *fw.Env, i int64, kind string, arg int) {
 		dataOnly = append(dataOnly, data...)
 		checkDelivered(dataOnly)
 		env.Event("idle_gaps_survived", int64(len(frames)-1))
-	case "stall":
+	case "stall", "stall+local-writes":
 		f := peer.Data(5, 5, false, 0x1234, 0x19000000|uint32(arg), append([]byte{0x21, 60}, randBytes(r, 60)...))
 		b := f.Bytes()
 		cs.Frames, cs.Bytes, cs.Cuts = 1, len(b), []int{arg}
 		env.Begin(i, cs)
 		env.Sample(cs)
-		env.Eval(fw.Hash64(b, []byte(fmt.Sprint("stall", arg))), true)
+		env.Eval(fw.Hash64(b, []byte(fmt.Sprint(kind, arg))), true)
 		_ = pc.SendRaw(b[:arg])
+		if kind == "stall+local-writes" {
+			// the LOCAL side writes while its receiver sits inside the stalled frame: the send path (write deadline
+			// armed and cleared around every write) must leave the receive path's T8 alone
+			for k := 0; k < 3; k++ {
+				time.Sleep(t8 / 5)
+				ctx, cancel := context.WithTimeout(context.Background(), time.Second)
+				_, _ = rg.Conn.SendDataMessage(ctx, 6, 11, false, secs2.A("local write inside the peer's stalled frame"))
+				cancel()
+				env.Event("local_writes_inside_a_stalled_frame", 1)
+			}
+		}
 		time.Sleep(6 * t8)
 		if !pc.WaitClosed(10 * time.Second) {
 			fail("in-frame-stall-not-dropped", fmt.Sprintf("the stream stalled after %d bytes of a frame for %v (T8 %v) and 10 s later the link is still up", arg, 6*t8, t8))
